@@ -221,7 +221,7 @@ Section FoldExp.
     (forall rho, eval rho e' = eval rho e) /\ gexp okn lv e' = true.
   Proof.
     induction e as [x|c|e IHe|op l H0|op e1 e2 IHe1 IHe2|op e IHe|op e1 e2 IHe1 IHe2|e1 e2 e3 IHe1 IHe2 IHe3|l H0|l H0|e1 e2 IHe1 IHe2|f args H0]
-      using exp_ind2; intros e' G H; simpl in G, H.
+      using exp_ind2; intros e' G H; cbn [gexp fold_exp] in G, H.
     - inversion H; subst. auto.
     - inversion H; subst. auto.
     - discriminate.
@@ -281,8 +281,8 @@ Section FoldExp.
       + inv_bind H. inversion H; subst.
         destruct a; simpl in Ca, G1, Ha2; try discriminate.
         destruct c; simpl in Ha2, G1; try discriminate; inversion Ha2; subst.
-        * split. { intro rho. simpl. rewrite <- E1. simpl. destruct b; auto. }
-          destruct b; auto.
+        * split. { intro rho. simpl. rewrite <- E1. simpl. destruct a2; auto. }
+          destruct a2; auto.
         * split. { intro rho. simpl. rewrite <- E1. simpl. destruct (negb (z =? 0)%Z); auto. }
           destruct (negb (z =? 0)%Z); auto.
       + inversion H; subst. split.
@@ -334,7 +334,7 @@ Section FoldExp.
       assert (G1' : forallb (gexp okn []) elts = true).
       { clear - G1 Ce. induction elts; simpl in *; auto.
         apply andb_true_iff in G1; destruct G1. apply andb_true_iff in Ce; destruct Ce.
-        rewrite IHelts by auto. destruct a; simpl in *; try discriminate; auto. }
+        rewrite IHelts by auto. destruct a; simpl in *; try discriminate. now rewrite H. }
       split.
       + intro rho. simpl. rewrite <- E1. simpl.
         destruct (eval_const_list rho elts Ce G1') as (vs & Hvs & Hidx). rewrite Hvs. simpl. rewrite Vi.
@@ -352,6 +352,6 @@ Section FoldExp.
       + intro rho. simpl.
         replace (all_some (map (eval rho) a)) with (all_some (map (eval rho) args)); auto.
         apply all_some_map_ext. clear - K. induction K; constructor; auto. destruct H. auto.
-      + simpl. rewrite Gf. simpl. clear - K. induction K; simpl; auto. destruct H as [_ ->]. auto.
+      + cbn [gexp]. rewrite Gf. simpl. clear - K. induction K; simpl; auto. destruct H as [_ ->]. auto.
   Qed.
 End FoldExp.
